@@ -1075,6 +1075,51 @@ fn fuzz_campaign(rep: &mut Report) {
 
 // ------------------------------------------------------------------------------------------------
 
+/// `--replay` of a violation reported by one of the manual sections
+fn replay_manual(rep: &mut Report, path: &Path) {
+    let Ok(txt) = std::fs::read_to_string(path) else { return };
+    let Ok(doc) = serde_json::from_str::<serde_json::Value>(&txt) else { return };
+    let section = doc["section"].as_str().unwrap_or("").to_string();
+    let case = &doc["case"];
+    match section.as_str() {
+        "goldens" => goldens(rep),
+        "header_table" => header_table(rep),
+        "golden_mutations" | "fuzz_decode_record" | "fuzz_decode_message" => {
+            let hexs = case["bytes"].as_str().or(case["input_hex"].as_str()).unwrap_or("");
+            let Ok(data) = hex::decode(hexs) else { return };
+            let (t, body): (Target, &[u8]) = if section == "fuzz_decode_message" {
+                if data.first().map(|b| b & 1 == 0).unwrap_or(true) { (Target::Request, data.get(1..).unwrap_or(&[])) } else { (Target::Response, data.get(1..).unwrap_or(&[])) }
+            } else if section == "fuzz_decode_record" {
+                (Target::Record, &data[..])
+            } else {
+                let name = case["golden"].as_str().unwrap_or("");
+                match pool().iter().find(|p| p.name == name) {
+                    Some(p) => (p.target, &data[..]),
+                    None => (Target::Record, &data[..]),
+                }
+            };
+            let hint = case["golden"].as_str().and_then(|n| pool().iter().find(|p| p.name == n)).map(|p| p.kind).unwrap_or(ALL_KINDS[body.first().copied().unwrap_or(0) as usize % 8]);
+            let mut f = Findings::default();
+            let r = vh_core::catch_panic(|| {
+                judge(t, body, hint, &mut f);
+                if case["mutation"].as_str() == Some("truncate") {
+                    judge_truncated(t, hint, body, &mut f);
+                }
+            });
+            let mut st = SectionStats { name: section.clone(), evaluations: 1, rule: format!("replay of {}", path.display()), ..Default::default() };
+            st.samples.push(case.clone());
+            rep.add_manual(st);
+            if let Err(p) = r {
+                rep.manual_violation(&section, Failure { sig: format!("panic:{}_decoder", target_name(t, hint)), detail: p }, case);
+            }
+            for (sig, detail) in f.fails {
+                rep.manual_violation(&section, Failure { sig, detail }, case);
+            }
+        }
+        _ => {}
+    }
+}
+
 pub fn run(cfg: RunCfg) {
     let mut rep = Report::new(cfg, "exploration");
     rep.rule = "C12: values of every record kind (± proofs of 0..5 quotes) and every request/response variant are built from plain-data specs with keys derived from small integers; round trip through the repository's encoders/decoders (msgpack records, CBOR via cbor4ii exactly as libp2p's request_response::cbor codec), byte-exact differential against frozen goldens, and the decoders on arbitrary / structurally mutated bytes.".into();
@@ -1087,6 +1132,9 @@ pub fn run(cfg: RunCfg) {
         "messages::RegisterCmd is not part of Request/Response (no wire use) and is not covered".into(),
         "libFuzzer: wall-clock cap expiry, OOM/timeout artifacts and build failures are 'inconclusive', never violations; crash artifacts are re-judged in-process for the signature".into(),
     ];
+    if let Some(path) = rep.cfg.replay.clone() {
+        replay_manual(&mut rep, &path);
+    }
     if rep.cfg.replay.is_none() {
         if rep.cfg.only.as_deref().map(|o| "header_table".contains(o)).unwrap_or(true) {
             header_table(&mut rep);
